@@ -1,5 +1,6 @@
 import VerylModel.Core.Register
 import VerylModel.Lemmas.Register
+import VerylModel.Lemmas.RegisterExact
 import VerylModel.Props.C06
 /-!
 C24 — build results do not depend on file order.
@@ -51,6 +52,49 @@ theorem error_free_perm (excl : Nat → Nat → Bool) (files files' : List (List
   intro h
   rw [register_all_inserted excl files' (noConflict_perm excl pf h)]
   exact pf.length_eq
+
+/-- T1c `register_exact`: an order registers every symbol (no duplicated identifier is reported) iff no
+    symbol conflicts with one that precedes it in that order — exactly the test `SymbolTable::insert`
+    makes; nothing is assumed about `excl`. -/
+theorem register_exact (excl : Nat → Nat → Bool) (files : List (List Sym)) :
+    registerAll excl files = files.flatten ↔ FwdOK excl files.flatten := by
+  rw [registerAll_eq_file]
+  have := registerFile_exact excl files.flatten []
+  simpa using this
+
+/-- `DefineContext::exclusive` on the `pos` / `neg` identifier sets of two contexts
+    (`!self.pos.is_disjoint(&value.neg) || !self.neg.is_disjoint(&value.pos)`). -/
+def exclusiveSets (pos neg pos' neg' : List Nat) : Bool :=
+  pos.any (fun x => neg'.contains x) || neg.any (fun x => pos'.contains x)
+
+/-- … is symmetric: the hypothesis `hsym` of T1d holds for the code's relation. -/
+theorem exclusiveSets_symm (pos neg pos' neg' : List Nat) :
+    exclusiveSets pos neg pos' neg' = exclusiveSets pos' neg' pos neg := by
+  unfold exclusiveSets
+  have sw : ∀ (a b : List Nat), a.any (fun x => b.contains x) = b.any (fun x => a.contains x) := by
+    intro a b
+    rw [Bool.eq_iff_iff]
+    simp only [List.any_eq_true, List.contains_iff_mem]
+    constructor <;> rintro ⟨x, h1, h2⟩ <;> exact ⟨x, h2, h1⟩
+  rw [sw pos neg', sw neg pos', Bool.or_comm]
+
+/-- T1d `duplicate_verdict_perm`: with a symmetric `exclusive`, WHETHER a duplicated identifier is
+    reported does not depend on the file order — for every project, error-free or not (T1/T1b cover the
+    error-free ones; which of two conflicting symbols wins does depend on the order,
+    `register_perm_needs_disjoint`). -/
+theorem duplicate_verdict_perm (excl : Nat → Nat → Bool) (hsym : ∀ a b, excl a b = excl b a)
+    (files files' : List (List Sym)) (p : files'.Perm files) :
+    registerAll excl files' = files'.flatten ↔ registerAll excl files = files.flatten := by
+  rw [register_exact, register_exact, fwdOK_iff_noConflict excl hsym, fwdOK_iff_noConflict excl hsym]
+  exact (error_free_perm excl files files' p).1
+
+/-- Symmetry is necessary: with a one-sided `exclusive` (say only `self.pos ∩ value.neg` were tested) one
+    order reports a duplicate and the other does not. -/
+theorem duplicate_verdict_needs_symm :
+    ∃ (excl : Nat → Nat → Bool) (files files' : List (List Sym)), files'.Perm files ∧
+      registerAll excl files = files.flatten ∧ registerAll excl files' ≠ files'.flatten :=
+  ⟨fun a b => a == 1 && b == 2, [[⟨[1], 7, 2, 100⟩], [⟨[1], 7, 1, 200⟩]], [[⟨[1], 7, 1, 200⟩], [⟨[1], 7, 2, 100⟩]],
+    List.Perm.swap _ _ _, by decide, by decide⟩
 
 /-- The hypothesis is necessary: with a duplicated key the winner depends on the order
     (that project is not error-free: the loser is reported as a duplicated identifier). -/
